@@ -175,6 +175,8 @@ def run(chk: Check):
     rule_p2(chk, ix, ir)
     rule_p3(chk, ix, ir)
     rule_p4(chk, ix, tr.interp)
+    from .c01 import rule_result_span
+    rule_result_span(chk, ir)
     # every bracket form must stay reachable through the look-aheads in front of it, and adjacency compares columns that
     # must all be in one unit (rules of C01, necessary here too)
     from .c01 import rule_column_unit, rule_lookahead_cover
